@@ -1357,7 +1357,17 @@ def translate_sources(sources, origin="deap/tools/selection.py, deap/tools/emo.p
         if key != "emo":
             glob[name] = ft
         out += text + "\n"
-    return out, status
+    return out + TRAILER, status
+
+
+TRAILER = """(* correspondence entry point: the same cases as Corr.C06.check, run through the regenerated definitions *)
+From DV Require Import Corr.C06.
+Definition check_gen : case -> bool :=
+  check_with gen_selRandom gen_selBest gen_selWorst gen_selTournament gen_selRoulette
+             gen_selStochasticUniversalSampling gen_selDoubleTournament
+             gen_selLexicase gen_selEpsilonLexicase gen_selAutomaticEpsilonLexicase gen_selTournamentDCD.
+Definition check_both (c : case) : bool := check c && check_gen c.
+"""
 
 
 def translate_repo(repo):
